@@ -163,6 +163,7 @@ int main(void) {
         if (!hasblock) blk = dtw_block_empty();
         DTWSettings s = dtw_settings_default();
         s.window = nextl(); s.penalty = nextd(); long psi = nextl(); s.inner_dist = (int)nextl();
+        s.max_dist = nextd(); s.max_step = nextd(); s.max_length_diff = nextl(); s.use_pruning = nextl() != 0;
         s.psi_1b = s.psi_1e = s.psi_2b = s.psi_2e = psi;
         n_thr = (int)nextl(); if (n_thr < 1) n_thr = 1; if (n_thr > MAXT) n_thr = MAXT;
         n_chunk = (int)nextl(); for (int i = 0; i < n_chunk; i++) chunk_script[i] = nextl();
